@@ -259,6 +259,36 @@ from ..xcheck import XCheck
 XC = XCheck()
 
 
+def surface_lines(fmt):
+    """grain-surface and gas-grain processes (C11's corpus) carrying declared temperature windows, and a surface
+    reaction split into adjacent windows; a window guards a reaction whatever its type"""
+    from . import c11
+
+    base = c11.leeds_lines() if fmt == "leeds" else c11.ucl_lines() + c11.ucl_therm_lines()
+    lines = []
+    for k, r in enumerate(base):
+        r = dict(r)
+        r["idx"] = k + 1
+        r["tmin"], r["tmax"] = WINDOWS[k % len(WINDOWS)]
+        if r["code"] == "FREEZE":
+            # by design the UCLCHEM reader replaces the columns of an accretion line by [0, 30) ("Turn off Freeze-out
+            # reaction beyond 30K", uclchemreaction.py): that is the window such a reaction declares in this format
+            r["win"] = ("0", "30")
+        lines.append(r)
+    if fmt == "leeds":
+        for k, code in enumerate((11, 12, 11, 12, 11, 12)):
+            lines.append({"reactants": ["GH2O", "CRPHOT" if code == 11 else "PHOTON"], "products": ["GOH", "GH"], "a": "1.00E-10", "b": "0.00", "c": "2.0", "tmin": WINDOWS[k][0], "tmax": WINDOWS[k][1], "code": code, "idx": len(lines) + 1})
+    bounds = [("10", "100"), ("100", "300"), ("300", "3000")]
+    if fmt == "leeds":
+        fam = [{"reactants": ["GCH4", "PHOTON"], "products": ["GCH3", "GH"], "a": f"{j + 1}.00E-10", "b": "0.00", "c": "2.0", "tmin": lo, "tmax": hi, "code": 12} for j, (lo, hi) in enumerate(bounds)]
+    else:
+        fam = [{"reactants": ["#CH4"], "products": ["CH4"], "a": f"{j + 1}.0", "b": "0.0", "c": "1300.0", "tmin": lo, "tmax": hi, "code": "DESCR"} for j, (lo, hi) in enumerate(bounds)]
+    return lines, fam
+
+
+SURFACE_MODEL = {"leeds": "hh93", "uclchem": "rr07x"}
+
+
 def analyse(fmt, tier, seed, which):
     XC.__init__(every=60 if tier == "thorough" else 150, first=1, cap=12 if tier == "thorough" else 3)
     res = _analyse_fmt(fmt, tier, seed, which)
@@ -279,18 +309,26 @@ def _analyse(fmt, tier, seed, which, res):
     import time
 
     thorough = tier == "thorough"
-    lines = build_lines(fmt, thorough, seed)
-    fam = adjacent_families(fmt)
+    surface = fmt.endswith("+surface")
+    fmt = fmt.split("+")[0]
+    tag = fmt + ("+surface" if surface else "")
+    if surface:
+        lines, fam = surface_lines(fmt)
+    else:
+        lines = build_lines(fmt, thorough, seed)
+        fam = adjacent_families(fmt)
     base_idx = len(lines)
     for j, r in enumerate(fam):
         r["idx"] = base_idx + j + 1
     alln = lines + fam
-    if fmt == "uclchem":
+    if fmt == "uclchem" and not surface:
         # UCLCHEM networks always carry H2 (its shielding factor is a registered derived quantity)
         alln.append({"reactants": ["H", "H"], "products": ["H2"], "a": "1.0e-17", "b": "0.0", "c": "0.0", "tmin": "0", "tmax": "0", "idx": len(alln) + 1, "code": ""})
     spec = {"files": [{"name": f"net.{fmt}", "content": file_text(fmt, alln)}], "network": {"filelist": f"net.{fmt}", "fileformats": fmt},
-            "targets": [dict(proj.TARGETS[t]) for t in (("dense", "odeint", "sparse", "cusparse") if which == "C06" else ("dense", "odeint"))]}
-    p = proj.render(f"rates-{fmt}", spec)
+            "targets": [dict(proj.TARGETS[t]) for t in (("dense", "odeint", "sparse", "cusparse") if which == "C06" and not surface else ("dense", "odeint"))]}
+    if surface:
+        spec["network"]["grain_model"] = SURFACE_MODEL[fmt]
+    p = proj.render(f"rates-{fmt}" + ("-surface" if surface else ""), spec)
     if not p.ok:
         # a well-formed file the generator cannot read: that is C07's subject, but nothing can be decided here
         res["errors"].append(f"generator failed on the encoder-written {fmt} file: {p.meta.get('error')}")
@@ -361,8 +399,8 @@ def _analyse(fmt, tier, seed, which, res):
                 continue
             i = poss[0]
             k = run.kout[i]
-            name = f"{fmt}/{tdir}:k[{i}] (idx {r['idx']}, code {r['code']!r}, a={r['a']}, b={r['b']}, c={r['c']}, T in [{r['tmin']},{r['tmax']}))"
-            key = f"{fmt}:{tdir}:code={r['code']!r}:a={r['a']}:b={r['b']}:c={r['c']}"
+            name = f"{tag}/{tdir}:k[{i}] (idx {r['idx']}, code {r['code']!r}, a={r['a']}, b={r['b']}, c={r['c']}, T in [{r['tmin']},{r['tmax']}))"
+            key = f"{tag}:{tdir}:code={r['code']!r}:a={r['a']}:b={r['b']}:c={r['c']}"
             kin = run.kinit[i]
             if which == "C05":
                 ref = law(fmt, r["code"], F(r["a"]), F(r["b"]), F(r["c"]))
@@ -420,7 +458,7 @@ def _analyse(fmt, tier, seed, which, res):
                 kk = R(run.kout[i])
                 kin = run.kinit[i]
                 guards.append(z3.substitute(kk, (kin, z3.RealVal(0))) == z3.substitute(kk, (kin, z3.RealVal(1))))
-            if len(guards) == len(fam):
+            if fam and len(guards) == len(fam):
                 lo, hi = F(fam[0].get("win", (fam[0]["tmin"],))[0]), F(fam[-1].get("win", (0, fam[-1]["tmax"]))[1])
                 cnt = z3.Sum([z3.If(g, 1, 0) for g in guards])
                 res["n"] += 1
@@ -431,11 +469,11 @@ def _analyse(fmt, tier, seed, which, res):
                     res["samples"].append({"obligation": f"{fmt}/{tdir}: adjacent windows {[(r['tmin'], r['tmax']) for r in fam]}: exactly one active for every T in the union", "verdict": "unsat"})
                 elif rr == "sat":
                     tv = s.model().eval(T, model_completion=True)
-                    res["viol"].append({"key": f"{fmt}:{tdir}:adjacent", "what": f"at T={tv} not exactly one of the adjacent windows is active", "replay": {"format": fmt, "T": str(tv), "replay_note": "guards are literal comparisons in the compiled IR"}})
+                    res["viol"].append({"key": f"{tag}:{tdir}:adjacent", "what": f"at T={tv} not exactly one of the adjacent windows is active", "replay": {"format": fmt, "T": str(tv), "replay_note": "guards are literal comparisons in the compiled IR"}})
                 else:
                     res["unknown"].append((f"{fmt}/{tdir}:adjacent", rr))
         res["solver_s"] += time.time() - t0
-    if which == "C06":
+    if which == "C06" and not surface:
         for tdir in ("cvode_dense", "cvode_sparse", "cvode_cusparse", "odeint_rosenbrock4"):
             if not p.target_ok(tdir):
                 continue
@@ -543,7 +581,7 @@ def _work(args):
 def main(pid, tier):
     chk = Check(pid, tier)
     proj.ensure_venv()
-    fmts = ["kida", "umist", "leeds", "uclchem", "naunet"] + (["krome"] if pid == "C06" else [])
+    fmts = ["kida", "umist", "leeds", "uclchem", "naunet"] + (["krome", "leeds+surface", "uclchem+surface"] if pid == "C06" else [])
     ctx = mp.get_context("fork")
     with cf.ProcessPoolExecutor(max_workers=6, mp_context=ctx) as ex:
         results = list(ex.map(_work, [(f, tier, chk.seed, pid) for f in fmts]))
